@@ -84,9 +84,7 @@ func prepare(repo, verif string) (*load.Program, error) {
 			}
 			more, ns := load.Reinline(prog.Pkgs, isNew, read)
 			if len(more) == 0 {
-				if round == 0 {
-					notes = append(notes, ns...)
-				}
+				notes = append(notes, ns...)
 				break
 			}
 			for k, v := range more {
